@@ -29,6 +29,17 @@ pub fn check_format(v: &Val, pic: &str) -> Result<(usize, &'static str), String>
     if !same {
         return Err(format!("{} {} with picture {pic:?}: Formatter::format gives {a:?} but T::format + write! gives {b:?}", v.kind.name(), v.raw));
     }
+    // the same through a sink that formats another value on every chunk it receives
+    let (ra, rb, inner) = ad::format_reentrant(&lv, pic).map_err(|p| format!("{} {} with picture {pic:?} into a re-entrant sink: {p}", v.kind.name(), v.raw))?;
+    let same2 = |x: &FmtOut, y: &FmtOut| match (x, y) {
+        (FmtOut::Text(p), FmtOut::Text(q)) => p == q,
+        (FmtOut::FormatErr, FmtOut::FormatErr) => true,
+        (FmtOut::BadPicture(_), FmtOut::BadPicture(_)) => true,
+        _ => false,
+    };
+    if !inner || !same2(&ra, &a) || !same2(&rb, &a) {
+        return Err(format!("{} {} with picture {pic:?}: into a sink that formats another value while being written to, T::format gives {ra:?} and Formatter::format {rb:?} (inner renderings right: {inner}); into a plain String: {a:?}", v.kind.name(), v.raw));
+    }
     match toks {
         None => match a {
             FmtOut::BadPicture(_) => Ok((0, "picture-rejected")),
